@@ -378,3 +378,27 @@ def lexer_scope(chk, F, G, T, rid="R-LEXSCOPE"):
                (r.sig, r.calls[-1].name, bad), "src/parser.y:%s" % r.line)
     if n < 10:
         raise AnalysisBroken("only %d scope-closing productions ending in a terminal" % n)
+
+
+# ---------------------------------------------------------------------------------------------- R-EDGEOWN
+def edge_owned_frames(chk, F, rid="R-EDGEOWN"):
+    """A label is parsed as a block of its own; what the previous block left on the scope stack is not under the
+    label's control (a label abandoned inside a quantifier leaves that scope pushed - known finding R-ENTRY).  The
+    callbacks that attach a label to the current edge must therefore name the edge's own objects, not `whatever frame
+    is on top`: select bindings go to currentEdge->select."""
+    chk.rule(rid, "DocumentBuilder::proc_select adds the select binding to currentEdge->select (the edge's own frame), "
+                  "never to frames.top(): the scope stack at the start of a label depends on the labels parsed before it")
+    fn = F.fn("UTAP::DocumentBuilder::proc_select")
+    adds = [c for c in calls(fn["body"]) if c.get("name") in ("addSelectSymbolToFrame", "add_symbol")]
+    if not adds:
+        raise AnalysisBroken("proc_select adds no symbol")
+    for c in adds:
+        args = [short(a).replace("this->", "") for a in c.get("args", [])]
+        recv = short(c.get("recv")).replace("this->", "") if c.get("recv") is not None else ""
+        txt = " ".join(args + [recv])
+        ok = "currentEdge->select" in txt and "frames.top()" not in txt
+        chk.ob(rid, "proc_select|%s" % c["name"], ok,
+               "proc_select adds the select binding to `%s` instead of the edge's own select frame: after a label that "
+               "left a scope pushed (a fault inside a quantifier body), a later select label of the same edge declares "
+               "its variables in that stray scope and the edge's select stays empty" %
+               ([a for a in args if "frame" in a or "top" in a] or args), "%s:%s" % (fn["file"], c.get("l")))
